@@ -108,6 +108,41 @@ func (r *Run) seen(fn *ssa.Function) {
 	r.FnSeen[r.W.Cfg.Name+":"+r.W.FnName(fn)] = true
 }
 
+type abortErr struct{}
+
+// absentf records that a mechanism the property's rules are anchored on (a call, a statement, a closure - not a
+// named function, type or constant) is missing from the code: the structural condition it stands for is absent, which
+// is a VIOLATION (not a broken check); the rest of this property's rules for the configuration are skipped.
+func (r *Run) absentf(format string, a ...interface{}) {
+	msg := fmt.Sprintf(format, a...)
+	h := 0
+	for _, c := range format {
+		h = (h*31 + int(c)) & 0xffff
+	}
+	r.ob(fmt.Sprintf("%s.R0:mechanism-present:%04x", r.Prop, h), "the mechanism this property's rules are anchored on is present in the code", nil, nil, false, "missing: "+msg, false)
+	panic(abortErr{})
+}
+
+// roles resolves the protocol roles; a role whose construct is missing is reported as an absent mechanism.
+func (r *Run) roles() *Roles {
+	ro := rolesOf(r.W)
+	var mine []string
+	for _, a := range ro.absent {
+		if strings.Contains(a, "finalizer") {
+			switch r.Prop {
+			case "C05", "C10", "C15", "C19":
+			default:
+				continue // this property's rules do not depend on the finalizer
+			}
+		}
+		mine = append(mine, a)
+	}
+	if len(mine) > 0 {
+		r.absentf("%s", strings.Join(mine, "; "))
+	}
+	return ro
+}
+
 // ob records one obligation. key is stable (rule + construct, never a line number).
 func (r *Run) ob(key, rule string, fn *ssa.Function, at ssa.Instruction, ok bool, detail string, nontrivial bool) bool {
 	if r.keep != nil {
